@@ -16,7 +16,8 @@ RULE = ("one logical dataset (rank 1..3, extents 1..9, any number type) and one 
         "while the chunk cache of the writing session may still serve them), "
         "non-chunked compression with each coder, n-bit, external file with offset, unlimited+blocksize; whole-chunk "
         "SDwritechunk/SDreadchunk interleaved with slab access; every configuration is compared with the array "
-        "model (which arbitrates the differential). Thorough adds a bounded-exhaustive sweep over every chunk shape "
+        "model (which arbitrates the differential); after the final reopen SDgetcomptype/SDgetcompress/SDgetdatasize/"
+        "SDgetexternalinfo must report the requested layout. Thorough adds a bounded-exhaustive sweep over every chunk shape "
         "for all extents <=4x4 and <=3x3x2. Non-trivial = a configuration with an edge (partial) chunk, or cache "
         "smaller than the chunks one slab touches, or chunk+coder, with >=2 writes hitting one chunk.")
 BUDGET = {"quick": {"shards": 8, "cases": 300}, "thorough": {"shards": 16, "cases": 2500}}
@@ -312,6 +313,22 @@ def run_config(case, cfg, d, labels, tag):
             ln = p.call("i", "SDreadchunk", V("s"), i32s(*origin), Out(csize * isz))
             ev, es = m.expect(lo, None, [hi[i] - lo[i] for i in range(rank)])
             checks.append((ln, "rchunk", (ev.copy(), es.copy(), shape, valid, origin)))
+    # what the library reports about the layout must agree with the layout that was requested
+    want_coder = None
+    if kind == "comp" or (kind == "chunk" and cfg["comp"]):
+        want_coder = cfg["comp"][0]
+    elif kind == "nbit" or (kind == "chunk" and cfg.get("nbit")):
+        want_coder = 2          # COMP_CODE_NBIT
+    elif kind in ("contig", "ext", "unlimited", "chunk"):
+        want_coder = 0          # COMP_CODE_NONE
+    checks.append((p.call("i", "SDgetcomptype", V("s"), Out(4)), "comptype", want_coder))
+    if kind == "comp" or (kind == "chunk" and cfg["comp"]):
+        checks.append((p.call("i", "SDgetcompress", V("s"), Out(4), Out(20)), "compress", cfg["comp"]))
+    if kind == "comp":
+        checks.append((p.call("i", "SDgetdatasize", V("s"), Out(4), Out(4)), "datasize", total * isz))
+    if kind == "ext":
+        checks.append((p.call("i", "SDgetexternalinfo", V("s"), 400, OutS(400), Out(4), Out(4)), "extinfo",
+                       ("ext_%s.dat" % tag, cfg["offset"])))
     checks.append((p.call("i", "SDendaccess", V("s")), "ret0", "SDendaccess"))
     checks.append((p.call("i", "SDend", V("sd")), "ret0", "SDend"))
     rr = run(p, cwd=d)
@@ -329,6 +346,30 @@ def run_config(case, cfg, d, labels, tag):
         elif ck == "ret0":
             if r.ret != 0:
                 raise Fail("%s failed" % pay, config=cfg, ret=r.ret, program=p.text()[:4000])
+        elif ck == "comptype":
+            got = struct.unpack("=i", r.bufs[0])[0]
+            if r.ret != 0 or got != pay:
+                raise Fail("SDgetcomptype disagrees with the requested layout", config=cfg, expected=pay, observed=got,
+                           ret=r.ret)
+        elif ck == "compress":
+            got = struct.unpack("=i", r.bufs[0])[0]
+            par = struct.unpack("=i", r.bufs[1][:4])[0]
+            if r.ret != 0 or got != pay[0] or (pay[0] in (sm.COMP_SKPHUFF, sm.COMP_DEFLATE) and par != pay[1]):
+                raise Fail("SDgetcompress disagrees with the requested coder", config=cfg, observed=[got, par], ret=r.ret)
+        elif ck == "datasize":
+            comp_size = struct.unpack("=i", r.bufs[0])[0]
+            orig = struct.unpack("=i", r.bufs[1])[0]
+            if r.ret != 0 or orig != pay or comp_size <= 0:
+                raise Fail("SDgetdatasize disagrees with the data written", config=cfg, expected_uncompressed=pay,
+                           observed=[comp_size, orig], ret=r.ret)
+        elif ck == "extinfo":
+            name = r.bufs[0][1] if isinstance(r.bufs[0], tuple) else r.bufs[0]
+            name = name[:max(r.ret, 0)]      # the name is returned without a terminator
+            off = struct.unpack("=i", r.bufs[1])[0]
+            ln_ = struct.unpack("=i", r.bufs[2])[0]
+            if r.ret <= 0 or not name.decode("latin-1").endswith(pay[0]) or off != pay[1]:
+                raise Fail("SDgetexternalinfo disagrees with SDsetexternalfile", config=cfg, observed=[str(name)[-40:], off, ln_],
+                           ret=r.ret)
         elif ck in ("read", "rchunk"):
             if ck == "read":
                 ev, es, what = pay
